@@ -71,8 +71,8 @@ func (s *MediaSegment) Size() uint64 {
 	if s.Styp != nil {
 		size += s.Styp.Size()
 	}
-	if s.Sidx != nil {
-		size += s.Sidx.Size()
+	for _, sidx := range s.Sidxs { // Encode writes all of them
+		size += sidx.Size()
 	}
 	for _, f := range s.Fragments {
 		size += f.Size()
